@@ -265,3 +265,78 @@ def selfcheck():
     assert (u * back1.diff('u')).same(one / u)
     assert not (u * back1.diff('u')).same(u)
     return True
+
+
+class LinForm:
+    """Linear combination of opaque atoms with rational-function coefficients:
+    sum_i c_i(symbols) * atom_i  (+ c_0 * 1).  Atoms are compared by a caller-supplied key."""
+
+    def __init__(self):
+        self.items = []     # [(key, coeff Rat)]   key None = the constant 1
+
+    def add(self, key, c, same_key):
+        for i, (k, v) in enumerate(self.items):
+            if (k is None and key is None) or (k is not None and key is not None and
+                                               same_key(k, key)):
+                self.items[i] = (k, v + c)
+                return
+        self.items.append((key, c))
+
+    def scaled(self, r):
+        out = LinForm()
+        out.items = [(k, v * r) for (k, v) in self.items]
+        return out
+
+    def plus(self, o, same_key, sign=1):
+        out = LinForm()
+        out.items = list(self.items)
+        for (k, v) in o.items:
+            out.add(k, v if sign > 0 else -v, same_key)
+        return out
+
+    def coeff(self, key, same_key):
+        for (k, v) in self.items:
+            if (k is None and key is None) or (k is not None and key is not None and
+                                               same_key(k, key)):
+                return v
+        return Rat.const(0)
+
+    def nonzero(self):
+        return [(k, v) for (k, v) in self.items if not v.n.is_zero()]
+
+
+def to_linform(t, leaf, atom, same_key):
+    """Normalise t to a LinForm.  leaf(term) -> polynomial symbol or None;
+    atom(term) -> atom key or None (opaque, e.g. log(..) / special-function calls)."""
+    try:
+        r = to_rat(t, lambda x: None if atom(x) is not None else leaf(x))
+        lf = LinForm()
+        lf.add(None, r, same_key)
+        return lf
+    except Unsupported:
+        pass
+    k = atom(t)
+    if k is not None:
+        lf = LinForm()
+        lf.add(k, Rat.const(1), same_key)
+        return lf
+    if t[0] == 'unary' and t[1] == '-':
+        return to_linform(t[2], leaf, atom, same_key).scaled(Rat.const(-1))
+    if t[0] == 'binop':
+        op = t[1]
+        if op in '+-':
+            a = to_linform(t[2], leaf, atom, same_key)
+            b = to_linform(t[3], leaf, atom, same_key)
+            return a.plus(b, same_key, 1 if op == '+' else -1)
+        if op == '*':
+            for (c, x) in ((t[2], t[3]), (t[3], t[2])):
+                try:
+                    r = to_rat(c, lambda y: None if atom(y) is not None else leaf(y))
+                except Unsupported:
+                    continue
+                return to_linform(x, leaf, atom, same_key).scaled(r)
+            raise Unsupported('product of two non-polynomial factors')
+        if op == '/':
+            r = to_rat(t[3], lambda y: None if atom(y) is not None else leaf(y))
+            return to_linform(t[2], leaf, atom, same_key).scaled(Rat.const(1) / r)
+    raise Unsupported('not a linear form: ' + repr(t)[:80])
